@@ -9,9 +9,23 @@ changes.
   *sown* crop stands on the field (SAAT > 0, SAAT ≤ day ≤ ERNTE2) — the N fixation of the day;
 * later sub-steps: PESUM, AUFNASUM and the uptake array PE are untouched;
 * a day of any number of sub-steps credits once.
+
+And about the translation of `mineral` (same file of the source, same translator):
+
+* what the first-order decay takes from an organic pool of a layer is exactly what the mineralised-amount counter of that
+  layer gains — for both pools, warm and frozen branch, any number of layers (`C07_source_mineral_pool_conserved`);
+* on warm layers the dissolved fertiliser sum and the nitrified ammonium sum grow and stay at or below the sums applied
+  (`C07_source_mineral_dissolved_le_applied_warm`; the frozen branch is covered by the hand model's theorem only);
+* with rate constants in [0,1] the organic pools stay ≥ 0 and the mineralised-amount counters never decrease, warm and frozen
+  branch, any number of layers (`C07_source_mineral_pools_nonneg`).
 -/
 import HermesProofs.ImpNmoveCredit
+import HermesProofs.ImpMineralPools
+import HermesProofs.ImpMineralDissolved
+import HermesProofs.ImpMineralNonneg
 import Mathlib.Tactic.Linarith
+import Mathlib.Tactic.IntervalCases
+import Mathlib.Tactic.NormNum
 
 namespace Hermes.Generated.Imp.nmove
 open Hermes.Imp
@@ -128,3 +142,96 @@ example : ¬ cropStands (demoState 0) := not_sown_not_standing _ rfl
 example : cropStands (demoState 900) := by unfold cropStands demoState rd; decide
 
 end Hermes.Generated.Imp.nmove
+
+namespace Hermes.Generated.Imp.mineral
+open Hermes.Imp
+
+/-- **Mineralisation moves N from the pool to its counter, nothing is lost or created** (source level): for every state in
+which the layers `mineral` works on lie inside the pool arrays, every layer `j` (inside or outside the worked range) and both
+organic pools, pool + mineralised-amount counter after the call equals pool + counter before it. -/
+theorem C07_source_mineral_pool_conserved (m : MathFns ℚ) (s : St ℚ) (h : InRange s) (j : Int) :
+    rd (run m s).g_NAOS j + rd (run m s).g_MINAOS j = rd s.g_NAOS j + rd s.g_MINAOS j ∧
+    rd (run m s).g_NFOS j + rd (run m s).g_MINFOS j = rd s.g_NFOS j + rd s.g_MINFOS j :=
+  ⟨(run_pool m s h).2.2.2.2.1 j, (run_pool m s h).2.2.2.2.2 j⟩
+
+/-- the arrays keep their lengths (no layer appears or disappears) -/
+theorem C07_source_mineral_pool_lengths (m : MathFns ℚ) (s : St ℚ) (h : InRange s) :
+    (run m s).g_NAOS.length = s.g_NAOS.length ∧ (run m s).g_MINAOS.length = s.g_MINAOS.length ∧
+    (run m s).g_NFOS.length = s.g_NFOS.length ∧ (run m s).g_MINFOS.length = s.g_MINFOS.length :=
+  ⟨(run_pool m s h).1, (run_pool m s h).2.1, (run_pool m s h).2.2.1, (run_pool m s h).2.2.2.1⟩
+
+/-- **Dissolved fertiliser never exceeds fertiliser applied** (source level, warm layers): if every layer `mineral` works on is
+warm and the two sums start in order, then after the call the applied sums are unchanged, the dissolved / nitrified sums have
+not decreased, and they are still at or below the applied sums. Partial with respect to the property: the frozen branch of the
+top layer (no upper clamp of the moisture factor) is excluded by `WarmInRange`; the hand model's `C07_dissolved_le_applied`
+covers it under its hypothesis `FrozenOrd`. -/
+theorem C07_source_mineral_dissolved_le_applied_warm (m : MathFns ℚ) (s : St ℚ) (h : WarmInRange s)
+    (h1 : s.g_UMS ≤ s.g_DSUMM) (h2 : s.g_NH4UMS ≤ s.g_NH4Sum) :
+    ((run m s).g_DSUMM = s.g_DSUMM ∧ s.g_UMS ≤ (run m s).g_UMS ∧ (run m s).g_UMS ≤ (run m s).g_DSUMM) ∧
+    ((run m s).g_NH4Sum = s.g_NH4Sum ∧ s.g_NH4UMS ≤ (run m s).g_NH4UMS ∧ (run m s).g_NH4UMS ≤ (run m s).g_NH4Sum) := by
+  obtain ⟨a1, a2, a3⟩ := Ums.run_dissolved m s h h1
+  obtain ⟨b1, b2, b3⟩ := Nh4.run_dissolved m s h h2
+  exact ⟨⟨a1, a2, by rw [a1]; exact a3⟩, ⟨b1, b2, by rw [b1]; exact b3⟩⟩
+
+/-- `WarmInRange` is satisfiable: three layers of 10 cm, soil temperature 10 °C at every node -/
+example (s : St ℚ) (h1 : s.g_IZM = 30) (h2 : s.g_DZ_Index = 10) (h3 : s.l_DUMS.length = 21) (h4 : s.l_DNH4UMS.length = 21)
+    (h5 : s.g_TD = List.replicate 22 10) : WarmInRange s := by
+  unfold WarmInRange
+  rw [h1, h2, h3, h4, h5]
+  refine ⟨by decide, by decide, by decide, ?_⟩
+  intro k hk
+  have hk3 : k < 3 := hk
+  interval_cases k <;> norm_num [rd]
+
+/-- the two first-order rate constants of the worked layers lie in [0,1] (`k = A·exp(−E/(T + 273.16))`: a hypothesis about
+`math.Exp`; numerically true below about 60 °C soil temperature, which the search checks on the Go side) -/
+def RatesInUnit (m : MathFns ℚ) (s : St ℚ) : Prop :=
+  ∀ k : Nat, k < (Int.tdiv s.g_IZM s.g_DZ_Index).toNat →
+    (0 ≤ 4000000000.0 * m.exp ((-8400.0) / ((rd s.g_TD (1 + (k : Int)) + rd s.g_TD (1 + (k : Int) - 1)) / 2.0 + 273.16)) ∧
+     4000000000.0 * m.exp ((-8400.0) / ((rd s.g_TD (1 + (k : Int)) + rd s.g_TD (1 + (k : Int) - 1)) / 2.0 + 273.16)) ≤ 1) ∧
+    (0 ≤ 5600000000000.0 * m.exp ((-9800.0) / ((rd s.g_TD (1 + (k : Int)) + rd s.g_TD (1 + (k : Int) - 1)) / 2.0 + 273.16)) ∧
+     5600000000000.0 * m.exp ((-9800.0) / ((rd s.g_TD (1 + (k : Int)) + rd s.g_TD (1 + (k : Int) - 1)) / 2.0 + 273.16)) ≤ 1)
+
+/-- **Organic pools stay non-negative and the mineralised-amount counters only grow** (source level, warm and frozen branch, any
+number of layers): for non-negative pools, rate constants in [0,1] and worked layers inside the arrays, every layer of both pools
+is ≥ 0 after the call and no counter entry is smaller than before. -/
+theorem C07_source_mineral_pools_nonneg (m : MathFns ℚ) (s : St ℚ) (h : InRange s) (h4 : (Int.tdiv s.g_IZM s.g_DZ_Index).toNat ≤ 4)
+    (hk : RatesInUnit m s) (hA : ∀ j : Int, 0 ≤ rd s.g_NAOS j) (hF : ∀ j : Int, 0 ≤ rd s.g_NFOS j) (j : Int) :
+    0 ≤ rd (run m s).g_NAOS j ∧ 0 ≤ rd (run m s).g_NFOS j ∧
+    rd s.g_MINAOS j ≤ rd (run m s).g_MINAOS j ∧ rd s.g_MINFOS j ≤ rd (run m s).g_MINFOS j := by
+  obtain ⟨a1, a2⟩ := PoolA.run_nonneg m s h h4 (fun k hk' => (hk k hk').1) hA
+  obtain ⟨f1, f2⟩ := PoolF.run_nonneg m s h h4 (fun k hk' => (hk k hk').2) hF
+  exact ⟨a1 j, f1 j, a2 j, f2 j⟩
+
+/-- a `math` package whose exponential returns 10⁻¹³ (the order of magnitude of the rate constants at 10 °C) -/
+def demoMath : MathFns ℚ where
+  exp := fun _ => 1 / 10000000000000
+  log := id
+  pow := fun x _ => x
+  mod := fun x _ => x
+  sqrt := id
+  sin := id
+  cos := id
+  tan := id
+  asin := id
+  acos := id
+  atan := id
+  abs := id
+  max := fun x _ => x
+  min := fun x _ => x
+  round := id
+  floor := id
+  ceil := id
+  ofInt := fun i => (i : ℚ)
+  toInt := fun _ => 0
+
+/-- `RatesInUnit` is satisfiable -/
+example (s : St ℚ) : RatesInUnit demoMath s := by
+  intro k _; norm_num [demoMath]
+
+/-- the hypothesis is satisfiable: the shipped layout (IZM = 30 cm, DZ = 10 cm: three layers, four counter slots) -/
+example (s : St ℚ) (h1 : s.g_IZM = 30) (h2 : s.g_DZ_Index = 10) (h3 : s.g_NAOS.length = 21) (h4 : s.g_NFOS.length = 21)
+    (h5 : s.g_MINAOS.length = 4) (h6 : s.g_MINFOS.length = 4) : InRange s := by
+  unfold InRange; rw [h1, h2, h3, h4, h5, h6]; decide
+
+end Hermes.Generated.Imp.mineral
